@@ -71,3 +71,32 @@ func (e *Exec) closed0() Term {
 	}
 	return c
 }
+
+// sendsiteChecks: `callsite send ...` assertions are checked at every channel send of the function under
+// contract (arg_value is the value sent); the ghost flag called("send") records that a send happened.
+func (e *Exec) sendsiteChecks(st *State, s *ast.SendStmt, v Val) {
+	if e.quiet || e.inContract > 0 || st.dead {
+		return
+	}
+	fc := e.frames[0].contract
+	if fc == nil {
+		return
+	}
+	for _, tracked := range fc.trackedCallees() {
+		if tracked == "send" {
+			st.ghosts["called:send"] = Val{T: True}
+		}
+	}
+	for _, c := range fc.Sites {
+		if c.LoopKey != "send" {
+			continue
+		}
+		env := e.loopEnv(st, s.Pos(), map[string]Val{"arg_value": v})
+		g := e.evContract(st, c.Expr, env)
+		name := fmt.Sprintf("%s#sendsite:%s@%s", e.fnName, c.Name, e.relLine(s.Pos()))
+		o := e.oblige(st, name, "callsite", c.Props, g, s.Pos())
+		if o != nil {
+			o.Clause = c.Src
+		}
+	}
+}
